@@ -1,3 +1,146 @@
-(* Property C02 - statements only (proofs in Proofs/C02_*.v). *)
-From SC.Model Require Import Base.
-Theorem placeholder : True. Proof. exact I. Qed.
+(* Property C02 - arithmetic obeys precedence, associativity and parentheses.
+   STATEMENTS ONLY: every theorem is closed by [exact] of a lemma of Proofs/C02_*.v and is
+   followed by Print Assumptions.  The statements are written out in full here so that a
+   weakened lemma in Proofs/ no longer fits.
+
+   Reading guide.  [expr] / [sexpr] (Spec/Expr.v) are expression trees, [denote] / [sdenote]
+   their value "by the usual rules" over any number algebra [Num F] (instantiated at binary64
+   at the end), [toks_of] the token list of the written expression, [wf] "the tree is what
+   precedence and left associativity read back from its own rendering" (every tree has such a
+   rendering with the same value: [parenthesise]).  The model functions are
+   token_cleaner / missing_token_adder (Post.v), parse (Parser.v), execute_ast (Interp.v). *)
+From Coq Require Import Floats.
+From SC.Model Require Import Base Num Types Config Case Post Parser Items Interp NumF64.
+From SC.Spec Require Import Expr.
+From SC.Proofs Require Import C02_Parser C02_Examples.
+
+Section WithNum.
+Context {F : Type} {NF : Num F}.
+
+(* every well-formed tree, of any size and depth: its explicit rendering is post-processed,
+   parsed and evaluated to the value given by the usual rules; the session is unchanged *)
+Theorem C02_token_level : forall bexec cfg vs infos (e : expr F),
+  wf e = true -> find_index info_is_eq infos = None ->
+  let tokens := missing_token_adder (token_cleaner infos (toks_of e)) in
+  parse tokens vs = (PAst (ast_of e), vs) /\
+  execute_ast bexec cfg vs (ast_of e) = Ok (IOk (AItem (INumber (denote e) Decimal)), vs).
+Proof. exact c02_token_level. Qed.
+
+(* every tree has a well-formed rendering with the same value *)
+Theorem C02_parenthesise_wf : forall (e : expr F), wf (parenthesise e) = true.
+Proof. exact c02_parenthesise_wf. Qed.
+Theorem C02_parenthesise_denote : forall (e : expr F), denote (parenthesise e) = denote e.
+Proof. exact c02_parenthesise_denote. Qed.
+
+(* operands written side by side are added: any rendering obtained by leaving out '+' tokens
+   between the end of an operand and the start of the next one *)
+Theorem C02_juxtaposition_level : forall bexec cfg vs (e : expr F) ts',
+  wf e = true -> elided ts' (toks_of e) ->
+  parse (missing_token_adder ts') vs = (PAst (ast_of e), vs) /\
+  execute_ast bexec cfg vs (ast_of e) = Ok (IOk (AItem (INumber (denote e) Decimal)), vs).
+Proof. exact c02_juxtaposition_level. Qed.
+
+Theorem C02_juxtaposition : forall bexec cfg vs x xs,
+  let tokens := missing_token_adder (nums (x :: xs)) in
+  parse tokens vs = (PAst (ast_of (plus_chain (Lit x) xs)), vs) /\
+  execute_ast bexec cfg vs (ast_of (plus_chain (Lit x) xs))
+  = Ok (IOk (AItem (INumber (fold_left fadd xs x) Decimal)), vs).
+Proof. exact c02_juxtaposition. Qed.
+
+(* a sign at the start of the line: 0 is supplied, "- e" is 0 - e *)
+Theorem C02_leading_sign_level : forall bexec cfg vs (e : expr F) (minus : bool),
+  wf e = true ->
+  let tokens := missing_token_adder (TOperator (sign_char minus) :: toks_of e) in
+  parse tokens vs = (PAst (ast_of (lead minus e)), vs) /\
+  execute_ast bexec cfg vs (ast_of (lead minus e))
+  = Ok (IOk (AItem (INumber (denote (lead minus e)) Decimal)), vs).
+Proof. exact c02_leading_sign_level. Qed.
+
+(* detached sign prefixes in operand position (after an operator, in front of a literal or a
+   parenthesis): a sign prefix negates its operand *)
+Theorem C02_sign_level : forall bexec cfg vs infos (e : sexpr F),
+  swf e = true -> not_neg e = true -> find_index info_is_eq infos = None ->
+  let tokens := missing_token_adder (token_cleaner infos (stoks_of e)) in
+  parse tokens vs = (PAst (sast_of e), vs) /\
+  execute_ast bexec cfg vs (sast_of e) = Ok (IOk (AItem (INumber (sdenote e) Decimal)), vs).
+Proof. exact c02_sign_level. Qed.
+
+(* as the right-hand side of an assignment: same value, and the name is bound to it *)
+Theorem C02_assign_level : forall bexec cfg vs infos i n (e : expr F),
+  wf e = true -> find_index info_is_eq infos = Some i ->
+  assoc_mem (to_lowercase n) vs = false ->
+  let name := to_lowercase n in
+  let tokens := missing_token_adder (token_cleaner infos (assign_toks n e)) in
+  exists vs1 vs2,
+    parse tokens vs = (PAst (AAssignment name (ast_of e)), vs1) /\
+    execute_ast bexec cfg vs1 (AAssignment name (ast_of e)) =
+      Ok (IOk (AItem (INumber (denote e) Decimal)), vs2) /\
+    assoc name vs2 =
+      Some {| v_tokens := [TText n]; v_data := AItem (INumber (denote e) Decimal) |}.
+Proof. exact c02_assign_level. Qed.
+
+(* the parser never runs out of the fuel the model gives it on these inputs: the general
+   form with an explicit bound and any non-continuing suffix *)
+Theorem C02_parse_level_suffix : forall (e : expr F) (suf : list (token F)) fuel,
+  wf e = true -> stop_tok suf = true -> (9 * length (toks_of e) + 8 <= fuel)%nat ->
+  parse_level fuel LAddSub (toks_of e ++ suf) = (PAst (ast_of e), suf).
+Proof. exact c02_parse_level_suffix. Qed.
+
+End WithNum.
+
+(* ---- binary64 (the arithmetic of the implementation): instances and non-vacuity ---- *)
+Local Open Scope float_scope.
+
+Theorem C02_f64_token_level : forall bexec cfg vs infos (e : expr float),
+  wf e = true -> find_index info_is_eq infos = None ->
+  let tokens := missing_token_adder (token_cleaner infos (toks_of e)) in
+  parse tokens vs = (PAst (ast_of e), vs) /\
+  execute_ast bexec cfg vs (ast_of e) = Ok (IOk (AItem (INumber (denote e) Decimal)), vs).
+Proof. exact (@c02_token_level float NumF64). Qed.
+
+(* a 43-token tree with all four operators, nested parentheses and a division by zero meets
+   the hypotheses; its value is 0x1.4f45d1745d174p+5 = 41.909090909090907 *)
+Theorem C02_nonvacuous : forall bexec cfg vs infos,
+  find_index info_is_eq infos = None ->
+  wf e_big = true /\
+  parse (missing_token_adder (token_cleaner infos (toks_of e_big))) vs = (PAst (ast_of e_big), vs) /\
+  execute_ast bexec cfg vs (ast_of e_big) = Ok (IOk (AItem (INumber v_big Decimal)), vs).
+Proof. exact c02_nonvacuous. Qed.
+
+Theorem C02_sign_nonvacuous : forall bexec cfg vs,
+  swf s_big = true /\
+  missing_token_adder (stoks_of s_big) = stoks_of s_big /\
+  parse_level (parse_fuel (stoks_of s_big)) LAddSub (stoks_of s_big) = (PAst (sast_of s_big), []) /\
+  execute_ast bexec cfg vs (sast_of s_big) = Ok (IOk (AItem (INumber (-15.5) Decimal)), vs).
+Proof. exact c02_sign_nonvacuous. Qed.
+
+(* the inputs that violated the property before the fix: commits (see known_findings.json,
+   "fixed") now evaluate as the property says: (((1+2))), x = ((1+2)), 3 * - 5 + 2, 2 * -(3),
+   (3) -2, (1)(2), 2 (3), 1 2 (3), - 5 + 2 *)
+Theorem C02_repaired_examples :
+  reads_as [LP; LP; LP; num 1; PLUS; num 2; RP; RP; RP] (ast_of e_paren3) 3 /\
+  reads_as [num 3; MUL; MINUS; num 5; PLUS; num 2] (sast_of s_mul_neg) (-13) /\
+  reads_as [num 2; MUL; MINUS; LP; num 3; RP] (sast_of s_neg_paren) (-6) /\
+  reads_as [LP; num 3; RP; num (-2)] (ast_of e_par_signed) 1 /\
+  reads_as [LP; num 1; RP; LP; num 2; RP] (ast_of e_par_par) 3 /\
+  reads_as [num 2; LP; num 3; RP] (ast_of e_num_par) 5 /\
+  reads_as [num 1; num 2; LP; num 3; RP] (ast_of e_num_num_par) 6 /\
+  reads_as [MINUS; num 5; PLUS; num 2] (ast_of (lead true e_5_plus_2)) (-3).
+Proof.
+  destruct c02_repaired_examples as (H1 & _ & H3 & H4 & H5 & H6 & H7 & H8 & H9).
+  exact (conj H1 (conj H3 (conj H4 (conj H5 (conj H6 (conj H7 (conj H8 H9))))))).
+Qed.
+
+Print Assumptions C02_token_level.
+Print Assumptions C02_parenthesise_wf.
+Print Assumptions C02_parenthesise_denote.
+Print Assumptions C02_juxtaposition_level.
+Print Assumptions C02_juxtaposition.
+Print Assumptions C02_leading_sign_level.
+Print Assumptions C02_sign_level.
+Print Assumptions C02_assign_level.
+Print Assumptions C02_parse_level_suffix.
+Print Assumptions C02_f64_token_level.
+Print Assumptions C02_nonvacuous.
+Print Assumptions C02_sign_nonvacuous.
+Print Assumptions C02_repaired_examples.
